@@ -151,7 +151,7 @@ theorem stackLoad_ok (p : Params) (sa : Nat) (h3 : Hyp3 p sa) (e : Emit) (M : St
         by_cases hji : j = i
         · subst hji
           rw [hvar'i, ← hvar'def]
-          refine ⟨hs.out, rfl, rfl, hs.outReg, hs.outInit, rfl, hs.grpLt, hs.outLt, hs.outLt, ?_, ?_⟩
+          refine ⟨hs.out, rfl, rfl, hs.outReg, hs.outInit, rfl, hs.grpLt, hs.outLt, hs.outLt, ?_, ?_, fun h => absurd h (by simp)⟩
           · show physAt c' (groupOf v.out.regType) v.out.regId = some j
             rw [hphys']; simp [g]
           · refine ⟨tok', get_set_self _ _ _, ?_, fun h => absurd h (by simp), fun _ => ⟨rfl, hdv⟩⟩
@@ -160,7 +160,7 @@ theorem stackLoad_ok (p : Params) (sa : Nat) (h3 : Hyp3 p sa) (e : Emit) (M : St
         · rw [hvar'j j hji] at hrj' ⊢
           have hvj := hw.var j hj hrj'
           have hne := hother j hj hrj'
-          refine ⟨hvj.out, hvj.curReg, hvj.notStk, hvj.outReg, hvj.outInit, hvj.grp, hvj.grpLt, hvj.curLt, hvj.outLt, ?_, ?_⟩
+          refine ⟨hvj.out, hvj.curReg, hvj.notStk, hvj.outReg, hvj.outInit, hvj.grp, hvj.grpLt, hvj.curLt, hvj.outLt, ?_, ?_, hvj.srcReg⟩
           · rw [hphys']; simp only [hne, if_false]; exact hvj.phys
           · obtain ⟨tj, hgetj, r1, r2, r3⟩ := hvj.tok
             refine ⟨tj, ?_, r1, r2, r3⟩
